@@ -11,7 +11,8 @@ LEVEL = "proof"
 EXPLANATION = (
     "Same bit-level model as C13 with the stochastic offset. Theorems: every draw returns one of the two enclosing "
     "multiples, representable patterns are fixed, and sr_count counts exactly the draws that round up "
-    "(floor((rem + floor(2^s/2))/2^s)), hence the exact probability with all bits and the half-unit bound with fewer. "
+    "(floor((rem + floor(2^s/2))/2^s)), hence the exact probability with all bits and the half-unit bound with fewer; "
+    "countUp_eq_core ties the count of the end-to-end quantMag to the core's for in-range normal inputs. "
     "The check substitutes torch.randint (recording its arguments) and enumerates all 2^srbits draws: output bit "
     "patterns vs the model per (x, r) (correspondence) and neighbours / fixed points / counted probabilities vs the "
     "fractional position of the value (oracle)."
